@@ -19,13 +19,17 @@ import time
 ROOT = os.path.dirname(os.path.dirname(os.path.abspath(__file__)))
 PY = "/verif/.venv/bin/python"
 KNOWN = os.path.join(ROOT, "known_findings.json")
-EVID = os.path.join(ROOT, "evidence")
+# VERIF_REPO: development aid for trying the checks on a scratch worktree (seeded breaking changes) without touching
+# /repo; evidence then goes to a scratch directory and is never the committed evidence.
+ALT_REPO = os.environ.get("VERIF_REPO", "")
+EVID = os.path.join(ROOT, "evidence") if not ALT_REPO else os.path.join(
+    "/tmp", "verif_alt_evidence_" + hashlib.sha256(ALT_REPO.encode()).hexdigest()[:8])
 MAX_KNOWN_ROUNDS = 8
 
 
 def _env():
     env = dict(os.environ)
-    env["PYTHONPATH"] = ROOT
+    env["PYTHONPATH"] = ROOT + ((os.pathsep + ALT_REPO) if ALT_REPO else "")
     env["PYTHONDONTWRITEBYTECODE"] = "1"
     env["PYTHONHASHSEED"] = "0"
     env.pop("VERIF_REPLAY", None)
@@ -172,7 +176,7 @@ def process_shard(spec, gen_root, known):
 def file_hashes(files):
     out = {}
     for f in files:
-        p = os.path.join("/repo", f)
+        p = os.path.join(ALT_REPO or "/repo", f)
         try:
             out[f] = hashlib.sha256(open(p, "rb").read()).hexdigest()[:16]
         except OSError:
